@@ -1871,7 +1871,7 @@ fn verify_nsec(
     }
 
     let Some((covering_nsec_name, covering_nsec_data)) =
-        find_nsec_covering_record(soa_name, &query.name, nsecs)
+        find_nsec_covering_record(&query.name, nsecs)
     else {
         return nsec1_yield(
             Proof::Bogus,
@@ -1951,7 +1951,7 @@ fn verify_nsec(
             .map(|(name, _)| (*name).clone())
     };
 
-    match find_nsec_covering_record(soa_name, &wildcard_name, nsecs) {
+    match find_nsec_covering_record(&wildcard_name, nsecs) {
         // For NXDomain responses, we've already proved the record does not exist. Now we just need to prove
         // the wildcard name is covered.
         Some((_, _)) if response_code == ResponseCode::NXDomain && !have_answer => {
@@ -1963,7 +1963,7 @@ fn verify_nsec(
             if response_code == ResponseCode::NoError
                 && have_answer
                 && no_closer_matches(&query.name, soa_name, nsecs, wildcard_base_name.as_ref())
-                && find_nsec_covering_record(soa_name, &query.name, nsecs).is_some() =>
+                && find_nsec_covering_record(&query.name, nsecs).is_some() =>
         {
             nsec1_yield(
                 Proof::Secure,
@@ -2032,7 +2032,7 @@ fn no_closer_matches(
             return false;
         };
 
-        if find_nsec_covering_record(soa, &wildcard, nsecs).is_none() {
+        if find_nsec_covering_record(&wildcard, nsecs).is_none() {
             debug!(%wildcard, %name, ?nsecs, "covering record does not exist for name");
             return false;
         }
@@ -2045,7 +2045,6 @@ fn no_closer_matches(
 
 /// Find the NSEC record proving that `test_name` does not exist, if any.
 fn find_nsec_covering_record<'a>(
-    soa_name: Option<&Name>,
     test_name: &Name,
     nsecs: &[(&'a Name, &'a NSEC)],
 ) -> Option<(&'a Name, &'a NSEC)> {
@@ -2064,8 +2063,11 @@ fn find_nsec_covering_record<'a>(
             return false;
         }
 
-        test_name > nsec_name
-            && (test_name < next_domain_name || Some(next_domain_name) == soa_name)
+        // The next domain name of the last NSEC record in the zone is the zone apex, this record
+        // covers all the names in the zone that sort after its owner name. (RFC 4034 4.1.1)
+        let is_last = next_domain_name.zone_of(nsec_name) && next_domain_name.zone_of(test_name);
+
+        test_name > nsec_name && (test_name < next_domain_name || is_last)
     })
 }
 
@@ -2859,6 +2861,63 @@ mod test {
                 &[(&nsec_name, &nsec)],
             ),
             Proof::Bogus
+        );
+
+        Ok(())
+    }
+
+    /// Builds the answer section of a response to an MX query for `name` that is expanded from
+    /// the wildcard with `num_labels` labels, not counting the asterisk label.
+    fn wildcard_expansion_answers(name: &Name, num_labels: u8) -> [Record; 2] {
+        let input = SigInput {
+            type_covered: MX,
+            algorithm: Algorithm::ED25519,
+            num_labels,
+            original_ttl: 3600,
+            sig_expiration: SerialNumber::new(0),
+            sig_inception: SerialNumber::new(0),
+            key_tag: 0,
+            signer_name: Name::root(),
+        };
+
+        let rrsig = rdataRRSIG::from_sig(input, vec![]);
+        let mut rrsig_record =
+            Record::from_rdata(name.clone(), 3600, RData::DNSSEC(DNSSECRData::RRSIG(rrsig)));
+        rrsig_record.proof = Proof::Secure;
+
+        [
+            Record::from_rdata(
+                name.clone(),
+                3600,
+                RData::MX(rdata::MX::new(10, name.clone())),
+            ),
+            rrsig_record,
+        ]
+    }
+
+    // The last NSEC record of the zone is recognized without a SOA record, wildcard expansion
+    // responses don't contain one
+    #[test]
+    fn nsec_wildcard_expansion_last_nsec() -> Result<(), ProtoError> {
+        subscribe();
+
+        let query_name = Name::from_ascii("a.z.w.example.")?;
+        assert_eq!(
+            verify_nsec(
+                &Query::new(query_name.clone(), MX),
+                None,
+                ResponseCode::NoError,
+                &wildcard_expansion_answers(&query_name, 2),
+                &[
+                    // This NSEC is the last one of the zone, it encloses the query name and proves
+                    // that no closer wildcard match exists in the zone.
+                    (
+                        &Name::from_ascii("*.w.example.")?,
+                        &rdataNSEC::new(Name::from_ascii("example.")?, [MX, NSEC, RRSIG],),
+                    ),
+                ],
+            ),
+            Proof::Secure
         );
 
         Ok(())
